@@ -113,9 +113,10 @@ prop("C13", ["contracts.c01_client", "contracts.c12_blockdown", "contracts.c13_b
               "binascii.crc_hqx is a byte-wise fold (uninterpreted step function)",
               "in BuRead, _retransmit is replaced by its own contract's summary (env BuStream)"],
      not_decided=["'any corruption ends in an error' rests on the strength of CRC-16, not on this code",
-                  "end to end: the undisturbed upload is proved (BlockUploadTheorem against env/blockserver.py); loss and corruption "
-                  "patterns over whole transfers are covered per function (BuRead, BuAckBlock, BuRetransmit) and by the bounded stand-in; "
-                  "timing of _retransmit's deadline loop"])
+                  "end to end: the undisturbed upload (BlockUploadTheorem) and safety under arbitrary LOSS of segments "
+                  "(BlockUploadLossTheorem: exactly the value or an SDO error, against env/blockserver.py LossyBlockUploadServer) are proved; "
+                  "CORRUPTED segments and wrong end frames over whole transfers are covered per function (BuRead, BuClose) and by the "
+                  "bounded stand-in; termination and timing of _retransmit's deadline loop (partial correctness only)"])
 
 prop("C08", ["contracts.c04_codec", "contracts.c08_eds", "contracts.c20_views"], ["CalcBitLength", "SignedIntFromHex", "BuildVariableNumbers", "OdLookup", "ArrayTemplate"],
      bounded=[("bounded.eds", "import_described")],
@@ -179,3 +180,5 @@ PROPS["C12"]["contracts"] += ["BlockDownloadTheorem", "BlockDownloadLossTheorem"
 for _p in ("C03",):
     PROPS[_p]["modules"].append("contracts.l03_pair")
     PROPS[_p]["contracts"] += ["PairDownloadTheorem", "PairExpedited", "PairUploadTheorem", "PairUploadSmall", "StackRoundTrip", "StackRoundTripSmall"]
+PROPS["C13"]["modules"].append("contracts.l13_blockupload_loss")
+PROPS["C13"]["contracts"].append("BlockUploadLossTheorem")
